@@ -209,6 +209,8 @@ func (s *State) enterLoop(l *Loop) {
 	invs := s.loopInvariants(l)
 	// 1. invariants hold on entry
 	env := s.specEnv()
+	env.lp = l
+	env.pre = s.snapshot()
 	for _, c := range invs {
 		c := c
 		err := safeSpec(func() {
@@ -902,9 +904,9 @@ func (s *State) exec(in ssa.Instruction) {
 		}
 		s.storeTo(loc, v, where)
 	case *ssa.UnOp:
-		s.regs[in] = s.execUnOp(in, where)
+		s.regs[in] = s.shorten(s.execUnOp(in, where))
 	case *ssa.BinOp:
-		s.regs[in] = s.execBinOp(in, where)
+		s.regs[in] = s.shorten(s.execBinOp(in, where))
 	case *ssa.FieldAddr:
 		base := s.valueOf(in.X)
 		loc := *s.locOf(base)
@@ -1030,6 +1032,30 @@ func (s *State) exec(in ssa.Instruction) {
 	}
 }
 
+// shorten names long leaf terms so that later uses stay small.
+func (s *State) shorten(v Val) Val {
+	if v.Loc != nil || v.Const != nil {
+		return v
+	}
+	sh := shapeOf(v.T)
+	if len(sh) != len(v.Terms) {
+		return v
+	}
+	var nt []string
+	changed := false
+	for i, t := range v.Terms {
+		if len(t) > 60 {
+			t = s.define("v", sh[i].Sort, t)
+			changed = true
+		}
+		nt = append(nt, t)
+	}
+	if changed {
+		v.Terms = nt
+	}
+	return v
+}
+
 func constIndex(v ssa.Value) int {
 	if c, ok := v.(*ssa.Const); ok && c.Value != nil {
 		if n, ok := constant.Int64Val(c.Value); ok && n >= 0 && n < 1<<20 {
@@ -1093,8 +1119,8 @@ func (s *State) execUnOp(in *ssa.UnOp, where string) Val {
 		return Val{T: in.Type(), Terms: []string{not(x.Terms[0])}}
 	case token.SUB:
 		if isIntT(in.Type()) {
-			s.oblige("safety", "overflow", []string{"C19"}, not(eq(x.Terms[0], minInt)), where, "")
-			return Val{T: in.Type(), Terms: []string{app("-", x.Terms[0])}}
+			// -MinInt wraps to MinInt
+			return Val{T: in.Type(), Terms: []string{ite(eq(x.Terms[0], minInt), minInt, app("-", x.Terms[0]))}}
 		}
 		return s.freshVal("neg", in.Type())
 	case token.ARROW:
@@ -1162,12 +1188,27 @@ func (s *State) execBinOp(in *ssa.BinOp, where string) Val {
 		case token.ADD, token.SUB, token.MUL:
 			op := map[token.Token]string{token.ADD: "+", token.SUB: "-", token.MUL: "*"}[in.Op]
 			e := app(op, a, b)
-			if bt.Info()&types.IsUnsigned == 0 && lo != "" {
-				s.oblige("safety", "overflow", []string{"C19"}, rng(e), where, "")
-			} else {
+			if bt.Info()&types.IsUnsigned != 0 || lo == "" {
 				return s.freshVal("uarith", res)
 			}
-			return Val{T: res, Terms: []string{e}}
+			// exact Go semantics: two's-complement wrap-around when the mathematical result leaves the type's range
+			if bt.Kind() != types.Int && bt.Kind() != types.Int64 {
+				return s.freshVal("narrowarith", res)
+			}
+			if u, ok := in.X.(*ssa.UnOp); ok && u.Op == token.MUL {
+				if al, ok := u.X.(*ssa.Alloc); ok && al.Comment == "rangeindex" {
+					// hidden range index: bounded by the slice length (auto invariant), cannot wrap
+					return Val{T: res, Terms: []string{e}}
+				}
+			}
+			ec := s.define("ar", sInt, e)
+			// try to establish cheaply that the operation cannot wrap; then the plain mathematical term is exact
+			if s.proveQuick(rng(ec)) {
+				s.assume(rng(ec))
+				return Val{T: res, Terms: []string{ec}}
+			}
+			wrapped := app("-", app("mod", app("+", ec, "9223372036854775808"), "18446744073709551616"), "9223372036854775808")
+			return Val{T: res, Terms: []string{s.define("arw", sInt, ite(rng(ec), ec, wrapped))}}
 		case token.QUO, token.REM:
 			s.oblige("safety", "div-by-zero", []string{"C19"}, not(eq(b, "0")), where, "")
 			q := ite(app(">=", a, "0"), app("div", a, b), app("-", app("div", app("-", a), b)))
